@@ -695,8 +695,10 @@ ra_writeable(RegisterTable *t, RegisterAddress addr, RegisterOffset n)
             break;
         }
         if (register_area_is_writeable(&t->area[i]) == false) {
+            /* Report the first address of the request, that is located in
+             * this area. */
             rv.code = REG_ACCESS_READONLY;
-            rv.address = addr;
+            rv.address = (t->area[i].base > addr) ? t->area[i].base : addr;
             return rv;
         }
     }
